@@ -307,7 +307,8 @@ def run(chk):
                   open(os.environ['VERIF_DEBUG'], 'w'), indent=1, default=str)
     if big:
         chk.leanchecker(['PeptVerif.Props.C18', 'PeptVerif.Model.CondenseMass', 'PeptVerif.Lemmas.CondenseMass',
-                         'PeptVerif.Lemmas.CondenseLabel', 'PeptVerif.Lemmas.DecText', 'PeptVerif.Props.C18Concrete'])
+                         'PeptVerif.Lemmas.CondenseLabel', 'PeptVerif.Lemmas.DecText', 'PeptVerif.Props.C18Concrete',
+                         'PeptVerif.Lemmas.ConcreteKeys'])
     return chk.finish(classify)
 
 
